@@ -582,6 +582,9 @@ func TestC06Server(t *testing.T) {
 		sc := genSrvScenario(rt)
 		rec.Current(sc)
 		st, err := runServer(t, sc, open)
+		if why := censusUnavailable.Load(); why != nil {
+			rec.NoteOnce("clause 'never after the subscription has been removed' NOT evaluated in the server part: %v", why)
+		}
 		for class := range st.excluded() {
 			rec.Excluded(class) // once per case
 		}
